@@ -756,7 +756,9 @@ func isUnknownSpec(a predOutcome) predOutcome {
 //@ ensures [C13] value-passed: r1 == nil ==> (ncalls(integerMath) == 1 && ncalls(executeFloatMath) == 0 && ncalls(execMathOp) == 0 && r0 == callret[any](integerMath, 0)) || (ncalls(executeFloatMath) == 1 && ncalls(integerMath) == 0 && ncalls(execMathOp) == 0 && r0 == any(callret[float64](executeFloatMath, 0))) || (ncalls(execMathOp) == 1 && ncalls(integerMath) == 0 && ncalls(executeFloatMath) == 0 && r0 == callret[any](execMathOp, 0))
 
 //@ func castJSONNumber
-//@ props C13
+//@ props C13 C05
+//@ atcall floatCallback assert [C05 C13] finite-operand: !isInf(arg_0) && !isNaN(arg_0)
+//@ ensures [C05 C13] out-of-range-refused: !uninterp[bool]("jnIsFloat", string(num)) ==> !r1
 //@ ensures [C13] result-numeric: r1 ==> is[int64](r0) || is[float64](r0)
 //@ ensures [C13] integer-stays-exact: uninterp[bool]("jnIsInt", string(num)) && uninterp[int64]("jnInt", string(num)) != -9223372036854775808 ==> r1 && r0 == any(dynret[int64](intCallback, 0, uninterp[int64]("jnInt", string(num))))
 //@ ensures [C13] fraction-as-float: !uninterp[bool]("jnIsInt", string(num)) && uninterp[bool]("jnIsFloat", string(num)) ==> r1 && r0 == any(dynret[float64](floatCallback, 0, uninterp[float64]("jnFloat", string(num))))
